@@ -633,6 +633,33 @@ func enumC17(env *engine.Env, yield func(any) bool) {
 			return
 		}
 	}
+	// contents entries: every type x every subset of the optional keys {src, file_info, packager, expand} (a directory
+	// or ghost may name a source too)
+	for _, typ := range []string{"", "file", "config", "config|noreplace", "config|missingok", "dir", "ghost", "symlink", "tree", "doc", "licence", "license", "readme"} {
+		for mask := 0; mask < 16; mask++ {
+			e := map[string]any{"dst": "/opt/x"}
+			if typ != "" {
+				e["type"] = typ
+			}
+			if mask&1 != 0 {
+				e["src"] = "/T/etc/app.conf"
+			}
+			if mask&2 != 0 {
+				e["file_info"] = map[string]any{"owner": "app", "group": "grp"}
+			}
+			if mask&4 != 0 {
+				e["packager"] = "rpm"
+			}
+			if mask&8 != 0 {
+				e["expand"] = true
+			}
+			d := c17Base()
+			d["contents"] = []any{e}
+			if !yield(C17Case{Part: "config", Doc: d, Value: fmt.Sprintf("entry-shape:%s:%d", typ, mask)}) {
+				return
+			}
+		}
+	}
 	metas := []model.MetaCfg{}
 	m := baseMeta()
 	m.Rel = map[string][]model.RelItem{}
